@@ -125,8 +125,13 @@ func (s *Server) Start(ctx context.Context, readyFunc func()) {
 		return
 	}
 
-	// Start listener go routine.
-	go s.serve(ctx)
+	// Start listener go routine.  It is counted in the WaitGroup until it exits: Drain must not
+	// return while the accept loop can still hand over a connection.
+	s.wg.Add(1)
+	go func() {
+		defer s.wg.Done()
+		s.serve(ctx)
+	}()
 	readyFunc()
 
 	// Wait for shutdown.
